@@ -60,8 +60,10 @@ func (ss *symset) refuse(stage string, err error) {
 	ss.add("refusal", stage, errClass(err), err.Error())
 }
 
-// topRelicFunc names the innermost relic function on a panic stack.
+// topRelicFunc names the outermost (entry point) and innermost relic functions
+// on a panic stack: "entry>top", or just "top" when they coincide.
 func topRelicFunc(stack []byte) string {
+	var fns []string
 	for _, line := range strings.Split(string(stack), "\n") {
 		if strings.HasPrefix(line, "github.com/sassoftware/relic/v8/") {
 			fn := line
@@ -71,10 +73,17 @@ func topRelicFunc(stack []byte) string {
 			if i := strings.LastIndex(fn, "/"); i >= 0 {
 				fn = fn[i+1:]
 			}
-			return fn
+			fns = append(fns, fn)
 		}
 	}
-	return "unknown"
+	if len(fns) == 0 {
+		return "unknown"
+	}
+	top, entry := fns[0], fns[len(fns)-1]
+	if top == entry {
+		return top
+	}
+	return entry + ">" + top
 }
 
 // guard runs fn, turning a panic into a symptom keyed by the top relic function.
@@ -147,17 +156,17 @@ func compareFields(ss *symset, stage string, d *zipslicer.Directory, ex *expect)
 }
 
 // readMember opens and reads one member, then asks for descriptor and extent.
-func readMember(ss *symset, stage string, i int, f *zipslicer.File, ex *expect) {
+func readMember(ss *symset, stage string, i int, f *zipslicer.File, ex *expect) (ok bool) {
 	m := ex.view.Members[i]
 	rc, err := f.Open()
 	if err != nil {
 		ss.refuse(stage+"-open", err)
-		return
+		return false
 	}
 	data, err := io.ReadAll(rc)
 	if err != nil {
 		ss.refuse(stage+"-content", err)
-		return
+		return false
 	}
 	rc.Close()
 	if shaHex(data) != m.SHA {
@@ -165,7 +174,7 @@ func readMember(ss *symset, stage string, i int, f *zipslicer.File, ex *expect) 
 	}
 	if _, err := f.GetDataDescriptor(); err != nil {
 		ss.refuse(stage+"-descriptor", err)
-		return
+		return false
 	}
 	if f.CRC32 != m.CRC {
 		ss.add("wrong", stage, "crc-after-descriptor", fmt.Sprintf("member %d: relic %08x, reference %08x", i, f.CRC32, m.CRC))
@@ -173,7 +182,7 @@ func readMember(ss *symset, stage string, i int, f *zipslicer.File, ex *expect) 
 	lh, err := f.GetLocalHeader()
 	if err != nil {
 		ss.refuse(stage+"-localheader", err)
-		return
+		return false
 	}
 	if int64(f.Offset)+int64(len(lh)) != m.DOff {
 		ss.add("wrong", stage, "data-offset", fmt.Sprintf("member %d: relic %d, references %d", i, int64(f.Offset)+int64(len(lh)), m.DOff))
@@ -181,26 +190,28 @@ func readMember(ss *symset, stage string, i int, f *zipslicer.File, ex *expect) 
 	ts, err := f.GetTotalSize()
 	if err != nil {
 		ss.refuse(stage+"-totalsize", err)
-		return
+		return false
 	}
 	if ts != ex.totals[i] {
 		ss.add("wrong", stage, fmt.Sprintf("totalsize-off-by-%+d", ts-ex.totals[i]),
 			fmt.Sprintf("member %d (%q, size %d): GetTotalSize %d, record occupies %d bytes", i, m.Name, m.Size, ts, ex.totals[i]))
 	}
+	return true
 }
 
-func dumpMember(ss *symset, stage string, i int, f *zipslicer.File, blob []byte, ex *expect) {
+func dumpMember(ss *symset, stage string, i int, f *zipslicer.File, blob []byte, ex *expect) bool {
 	m := ex.view.Members[i]
 	var w bytes.Buffer
 	n, err := f.Dump(&w)
 	if err != nil {
 		ss.refuse(stage, err)
-		return
+		return false
 	}
 	want := blob[m.HOff : m.HOff+ex.totals[i]]
 	if !bytes.Equal(w.Bytes(), want) || n != int64(len(want)) {
 		ss.add("wrong", stage, "bytes", fmt.Sprintf("member %d: Dump wrote %d bytes (returned %d), record is %d bytes", i, w.Len(), n, len(want)))
 	}
+	return true
 }
 
 // checkRandom: zipslicer.Read (random access): member list, offsets, sizes,
@@ -226,7 +237,9 @@ func checkRandom(ss *symset, blob []byte, ex *expect) {
 			return
 		}
 		for i, f := range d.File {
-			readMember(ss, "read", i, f, ex)
+			if !readMember(ss, "read", i, f, ex) {
+				return // a caller stops at the first refusal
+			}
 		}
 		if end, err := d.NextFileOffset(); err != nil {
 			ss.refuse("read-nextfileoffset", err)
@@ -243,7 +256,9 @@ func checkRandom(ss *symset, blob []byte, ex *expect) {
 			return
 		}
 		for i, f := range d.File {
-			dumpMember(ss, "read-dump", i, f, blob, ex)
+			if !dumpMember(ss, "read-dump", i, f, blob, ex) {
+				return
+			}
 		}
 	})
 }
@@ -285,7 +300,9 @@ func checkStream(ss *symset, tmp string, blob []byte, ex *expect) {
 			return
 		}
 		for i, f := range d.File {
-			readMember(ss, "stream", i, f, ex)
+			if !readMember(ss, "stream", i, f, ex) {
+				return
+			}
 		}
 	})
 	ss.guard("stream-dump", func() {
@@ -294,7 +311,9 @@ func checkStream(ss *symset, tmp string, blob []byte, ex *expect) {
 			return
 		}
 		for i, f := range d.File {
-			dumpMember(ss, "stream-dump", i, f, blob, ex)
+			if !dumpMember(ss, "stream-dump", i, f, blob, ex) {
+				return
+			}
 		}
 	})
 }
